@@ -93,6 +93,15 @@ func SelfTest() error {
 	if res, err := DecodeOpts([]byte("5 ; a = b\r\nhello\r\n0\r\n\r\n"), Options{BWS: true}); err != nil || string(res.Data) != "hello" {
 		return fmt.Errorf("chunked self-test: BWS tolerance: %v %q", err, res.Data)
 	}
+	// TrailingWS tolerance: padding only directly before the line end
+	if res, err := DecodeOpts([]byte("5 \t\r\nhello\r\n0 \r\n\r\nrest"), Options{TrailingWS: true}); err != nil || string(res.Data) != "hello" || res.Consumed != 18 || res.Chunks[0].Ext != "" {
+		return fmt.Errorf("chunked self-test: TrailingWS tolerance: %v %q %d", err, res.Data, res.Consumed)
+	}
+	for in, class := range map[string]string{"5 \nhello\r\n0\r\n\r\n": LineBareLF, "5 x\r\nhello\r\n0\r\n\r\n": SizeTrailingWS, "5 ;a\r\nhello\r\n0\r\n\r\n": ExtBWS, " 5\r\nhello\r\n0\r\n\r\n": SizeLeadingWS, " \r\n\r\n": SizeEmptyLine} {
+		if _, err := DecodeOpts([]byte(in), Options{TrailingWS: true}); err == nil || err.Class != class {
+			return fmt.Errorf("chunked self-test: TrailingWS tolerance on %q: %v, want %s", in, err, class)
+		}
+	}
 	// Encode/Decode round trip
 	data := []byte("The quick brown fox\r\n0\r\n\r\njumps")
 	enc := Encode(data, []int{1, 0, 7, 3})
